@@ -86,6 +86,10 @@ class Center:
         else:
             res = self.offset
 
+        if hasattr(res, "form"):
+            # StateVector : the offset is its cartesian coordinates, whatever its form
+            res = res.copy(form="cartesian")
+
         return self.orientation.convert_to(date, orientation) @ res
 
 
